@@ -52,7 +52,22 @@ def main():
     if a.replay:
         mod.replay(a.replay)
         return
-    mod.main(a.tier, seed)
+    try:
+        mod.main(a.tier, seed)
+    except SystemExit:
+        raise
+    except BaseException as e:  # the harness itself failed: the property is not shown to hold on this tree
+        import json
+        import traceback
+        from common import VERIF
+        (VERIF / "replays").mkdir(exist_ok=True)
+        rp = VERIF / "replays" / f"{a.pid}_{a.tier}_{seed}.json"
+        rp.write_text(json.dumps(dict(property=a.pid, kind="harness-crash", error=f"{type(e).__name__}: {e}",
+                                      traceback=traceback.format_exc()[-3000:],
+                                      note="the check could not be completed on this tree; no theorem/correspondence was established"), indent=1))
+        print(f"[{a.pid}] harness crashed: {type(e).__name__}: {e}")
+        print(f"VIOLATION property={a.pid} replay={rp} no-failing-input-found")
+        sys.exit(1)
 
 
 if __name__ == "__main__":
